@@ -389,6 +389,70 @@ impl Family for PrefixNamedModules {
     }
 }
 
+/// A refused file next to healthy ones: discarding what it had added to the AST leaves every definition of the other
+/// files retrievable by its fully scoped name - also a definition named like a nested module of another file.
+pub struct RetrievalNextToARefusedFile;
+const RR_REFUSED: [&str; 4] = ["module Bad\nstruct T { x y }\n", "struct NoModule {}\n", "module A\nstruct B2 {}\nstruct {\n", "module A::B\nstruct Again {}\nstruct T { x y }\n"];
+impl RetrievalNextToARefusedFile {
+    fn texts(idx: u64) -> Vec<String> {
+        let healthy = ["module A\nstruct B { f: int32 }\nenum E { V }\n", "module A::B\nstruct X { g: int32 }\ninterface I { op() }\n", "module Z\ncustom C\ntypealias T = int32\n"];
+        let refused = RR_REFUSED[(idx % 4) as usize];
+        let order = ((idx / 4) % 6) as usize;
+        let at = (idx / 24) as usize; // where the refused file stands among the three healthy ones: 0..=3
+        let mut v: Vec<String> = ORDERS[order].iter().map(|k| healthy[*k].to_string()).collect();
+        v.insert(at, refused.to_string());
+        v
+    }
+}
+impl Family for RetrievalNextToARefusedFile {
+    fn name(&self) -> String {
+        "retrieval-next-to-a-refused-file/3 healthy files (module A with struct B, module A::B, module Z) in all 6 orders x 4 refused files (syntax error, no module, the same module, the nested module) at every position: every definition, field, enumerator and operation of the healthy files is retrievable by its scoped name with its kind".into()
+    }
+    fn len(&self) -> u64 {
+        4 * 6 * 4
+    }
+    fn describe(&self, idx: u64) -> Value {
+        json!({"files": Self::texts(idx)})
+    }
+    fn run(&self, idx: u64) -> CaseOut {
+        let texts = Self::texts(idx);
+        let mut out = CaseOut::new(hash_str(&texts.join("\u{1}")));
+        out.validated = 1;
+        out.nontrivial = true;
+        let refs: Vec<&str> = texts.iter().map(|s| s.as_str()).collect();
+        let input = || texts.join("\n--- next file ---\n");
+        match compile_texts(&refs, None) {
+            Err((loc, msg)) => out.violate(format!("c03/retrieval-next-to-a-refused-file/panic@{loc}"), format!("{msg}\n--- input ---\n{}", input())),
+            Ok((ast, _files, diags)) => {
+                if !diags.iter().any(|d| d.level == "error") {
+                    out.violate("c03/retrieval-next-to-a-refused-file/refused-file-accepted", input());
+                }
+                let checks: [(&str, bool); 11] = [
+                    ("A::B", ast.find_element::<Struct>("A::B").is_ok()),
+                    ("A::B::f", ast.find_element::<Field>("A::B::f").is_ok()),
+                    ("A::E", ast.find_element::<Enum>("A::E").is_ok()),
+                    ("A::E::V", ast.find_element::<Enumerator>("A::E::V").is_ok()),
+                    ("A::B::X", ast.find_element::<Struct>("A::B::X").is_ok()),
+                    ("A::B::X::g", ast.find_element::<Field>("A::B::X::g").is_ok()),
+                    ("A::B::I", ast.find_element::<Interface>("A::B::I").is_ok()),
+                    ("A::B::I::op", ast.find_element::<Operation>("A::B::I::op").is_ok()),
+                    ("Z::C", ast.find_element::<CustomType>("Z::C").is_ok()),
+                    ("Z::T", ast.find_element::<TypeAlias>("Z::T").is_ok()),
+                    ("B from scope A", ast.find_element_with_scope::<Struct>("B", "A").is_ok()),
+                ];
+                for (name, ok) in checks {
+                    if !ok {
+                        out.violate("c03/retrieval-next-to-a-refused-file/not-retrievable-by-scoped-name", format!("{name} is defined in a healthy file but cannot be retrieved (with its kind) from the AST after the compilation\n--- input ---\n{}", input()));
+                        break;
+                    }
+                }
+                out.class = format!("refused{}", idx % 4);
+            }
+        }
+        out
+    }
+}
+
 /// Alias chains with attributes.
 pub struct AliasChains;
 const ENDS: usize = 6;
@@ -620,5 +684,5 @@ impl Family for ModuleNamedLikeAnAlias {
 }
 
 pub fn families(_tier: &str) -> Vec<Box<dyn Family>> {
-    vec![Box::new(RelativeChains), Box::new(AliasChains), Box::new(ModuleNamedLikeAnAlias), Box::new(KeywordNames), Box::new(PrefixNamedModules), Box::new(ScopeProduct)]
+    vec![Box::new(RelativeChains), Box::new(AliasChains), Box::new(ModuleNamedLikeAnAlias), Box::new(KeywordNames), Box::new(PrefixNamedModules), Box::new(RetrievalNextToARefusedFile), Box::new(ScopeProduct)]
 }
